@@ -164,7 +164,11 @@ pub fn update_position_reply(
     } else if swap.margin_to_vault > Integer::zero() {
         match config.eligible_collateral {
             AssetInfo::NativeToken { .. } => {
-                funds.required = funds.required.checked_add(swap_margin)?;
+                // the net amount owed to the vault, i.e. after what the closed leg of a
+                // reversal gives back (equal to the new margin when nothing was closed)
+                funds.required = funds
+                    .required
+                    .checked_add(swap.margin_to_vault.value)?;
             }
             AssetInfo::Token { .. } => {
                 msgs.push(
@@ -315,15 +319,8 @@ pub fn reverse_position_reply(
         // set fees_paid flag to true so they aren't paid twice
         swap.fees_paid = true;
 
-        // update the funds required
-        funds.required = if swap.margin_to_vault.is_positive() {
-            funds.required.checked_add(swap.margin_to_vault.value)?
-        } else if funds.required > swap.margin_to_vault.value {
-            funds.required.checked_sub(swap.margin_to_vault.value)?
-        } else {
-            // add both fees
-            fees.spread_fee.checked_add(fees.toll_fee)?
-        };
+        // the funds required so far are the fees, what the closed position gives back (or
+        // still owes) is netted against the new margin once the new position is opened
 
         msgs.push(internal_increase_position(
             swap.vamm.clone(),
